@@ -47,9 +47,33 @@ Definition join_ts (part1 part2 : bytes) : bytes :=
     WalkDir-relative file names): not empty, no slash at either end *)
 Definition relb (s : bytes) : bool :=
   negb (is_nil s) && negb (head_is_slash s) && negb (last_is_slash s).
-(** the repository prefix S3Client keeps (s3.rs:741, the raw option value): usable iff it
-    does not end with a slash *)
+(** a stored repository prefix is usable by prefix_offset (s3.rs:780-784) iff it does not end
+    with a slash; since commit 1405318 S3Client::new guarantees this (see [client_prefix]) *)
 Definition pfx_ok (p : bytes) : bool := negb (last_is_slash p).
+
+(** util::trim_trailing_slashes, util.rs:70-72: [path.trim_end_matches('/')] removes every
+    trailing '/' (a string of slashes only becomes empty) *)
+Fixpoint trim_trailing_slashes (s : bytes) : bytes :=
+  match s with
+  | [] => []
+  | c :: r => match trim_trailing_slashes r with
+              | [] => if is_slash c then [] else [c]
+              | r' => c :: r'
+              end
+  end.
+
+(** the repository prefix S3Client::new stores, s3.rs:741:
+    [util::trim_trailing_slashes(prefix.unwrap_or_default())]; [raw] is the option value the
+    caller gave ([None] = empty).  Everything below ([cprefix] arguments) works on the STORED
+    prefix, as the methods of S3Client do ([self.prefix], s3.rs:761,780-784,814,843,873,893,923,952).
+    A leading slash is kept (nothing trims it): "/pre" stores keys "/pre/..." and lists
+    "/pre/"; "/" alone becomes the empty prefix = the bucket root. *)
+Definition client_prefix (raw : bytes) : bytes := trim_trailing_slashes raw.
+
+(** historical note only: before commit 1405318 S3Client::new kept the raw value
+    ([prefix.unwrap_or_default().to_owned()]); used by nothing but the lemma
+    [prefix_trailing_slash_before_fix] in Proofs/S3Facts.v *)
+Definition client_prefix_before_fix (raw : bytes) : bytes := raw.
 
 (** Rust's [&s[off..]] on a String: panics when off is past the end or not on a UTF-8
     character boundary (a continuation byte 10xxxxxx follows) *)
